@@ -221,7 +221,7 @@ Definition continues (a v : ver) : bool :=
   glob_match (norev a) v
   || match v_sufs a, v_sufs v with
      | [(k, None)], (k', Some _) :: _ =>
-         is_eq (nums_cmp (v_nums v) (v_nums a)) && is_eq (letter_cmp (v_letter v) (v_letter a))
+         is_eq (nums_cmp (v_nums a) (v_nums v)) && is_eq (letter_cmp (v_letter a) (v_letter v))
          && is_eq (krank k ?= krank k')%N
      | _, _ => false
      end.
